@@ -182,9 +182,44 @@ static inline void *vf_realloc(void *p, size_t n)
     }
     return realloc(p, n);
 }
-# define malloc vf_malloc
-# define calloc vf_calloc
-# define realloc vf_realloc
+# ifdef VF_NATIVE
+/* native replay: count live blocks of the unit under test so that leak
+   assertions (VF_LIVE_BLOCKS) reproduce deterministically */
+static int vf_native_live;
+static inline void *vf_malloc_n(size_t n)
+{
+    void *p = vf_malloc(n);
+    vf_native_live += (p != NULL);
+    return p;
+}
+static inline void *vf_calloc_n(size_t a, size_t b)
+{
+    void *p = vf_calloc(a, b);
+    vf_native_live += (p != NULL);
+    return p;
+}
+static inline void *vf_realloc_n(void *q, size_t n)
+{
+    void *p = vf_realloc(q, n);
+    vf_native_live += (p != NULL && q == NULL);
+    return p;
+}
+static inline void vf_free_n(void *p)
+{
+    vf_native_live -= (p != NULL);
+    free(p);
+}
+#  define malloc vf_malloc_n
+#  define calloc vf_calloc_n
+#  define realloc vf_realloc_n
+#  define free vf_free_n
+#  define VF_LIVE_BLOCKS() vf_native_live
+# else
+#  define malloc vf_malloc
+#  define calloc vf_calloc
+#  define realloc vf_realloc
+#  define VF_LIVE_BLOCKS() vf_heap_live
+# endif
 #endif
 
 #endif /* VF_H */
